@@ -401,8 +401,8 @@ Proof.
   - unfold on_new_worker in H. inversion H; subst.
     eapply (SF_ext _ _ [OEv (EvWConn _); ONewWorker _]); [reflexivity | reflexivity | apply nojr_same; reflexivity].
   - destruct (find_proc _ w); [|discriminate]. eapply SF_on_remove_worker; exact H.
-  - eapply SF_submit_array; exact H.
-  - destruct (bad_graph_rq _ _); [inversion H; subst; eapply (SF_ext _ _ [_]); [reflexivity | reflexivity | apply nojr_same; reflexivity]|].
+  - destruct (bad_submit_lengths _ _); [inversion H; subst; eapply (SF_ext _ _ [_]); [reflexivity | reflexivity | apply nojr_same; reflexivity]|]. eapply SF_submit_array; exact H.
+  - destruct (bad_graph_rq _ _); [inversion H; subst; eapply (SF_ext _ _ [_]); [reflexivity | reflexivity | apply nojr_same; reflexivity]|]. destruct (dead_dep _ _ _); [inversion H; subst; eapply (SF_ext _ _ [_]); [reflexivity | reflexivity | apply nojr_same; reflexivity]|].
     eapply SF_submit_graph; exact H.
   - unfold handle_open in H.
     match type of H with Ok ?x = _ => assert (Hx : (s', outs) = x) by congruence; rewrite Hx; clear Hx H end.
